@@ -3,6 +3,7 @@
 package otr3
 
 import (
+	"io"
 	"bytes"
 	"crypto/dsa"
 	"crypto/sha1"
@@ -551,6 +552,91 @@ func (x *c17Run) keys(seed int64, thorough bool) {
 		}
 		x.tick(len(name) > 0)
 	}
+	// long key files: the reader works through a 4096-byte buffer, so every token of an account entry is slid over
+	// every buffer boundary by growing the first account name one character at a time; and every way the underlying
+	// reader may cut the file into chunks of a fixed size
+	sameAccounts := func(back, accs []*Account, err error) bool {
+		okv := err == nil && len(back) == len(accs)
+		for a := 0; okv && a < len(accs); a++ {
+			bk, isDSA := back[a].Key.(*DSAPrivateKey)
+			okv = back[a].Name == accs[a].Name && back[a].Protocol == accs[a].Protocol && isDSA && c17SameKey(bk, accs[a].Key.(*DSAPrivateKey))
+		}
+		return okv
+	}
+	var one bytes.Buffer
+	exportAccounts([]*Account{{Name: "a", Protocol: "prpl-jabber", Key: keys[0]}}, &one)
+	entry := one.Len()
+	counts := []int{6}
+	if thorough {
+		counts = []int{6, 11, 16}
+	}
+	slid := 0
+	for _, nacc := range counts {
+		for pad := 0; pad <= entry+8; pad++ {
+			var accs []*Account
+			for a := 0; a < nacc; a++ {
+				name := fmt.Sprintf("acc%d@example.org", a)
+				if a == 0 {
+					name = "a" + strings.Repeat("x", pad)
+				}
+				accs = append(accs, &Account{Name: name, Protocol: "prpl-jabber", Key: keys[(a+pad)%len(keys)]})
+			}
+			var buf bytes.Buffer
+			exportAccounts(accs, &buf)
+			back, err := ImportKeys(bytes.NewReader(buf.Bytes()))
+			if !sameAccounts(back, accs, err) {
+				x.bad("keyfile-roundtrip:long-file", "ImportKeys(ExportKeys(x)) differs for a %d-byte file of %d accounts (first account name of %d characters): %v", buf.Len(), nacc, pad+1, err)
+			}
+			slid++
+			x.tick(true)
+		}
+	}
+	x.r.Extra["keyfile_boundary_positions"] = slid
+	{
+		var accs []*Account
+		for a := 0; a < 6; a++ {
+			accs = append(accs, &Account{Name: fmt.Sprintf("acc%d@example.org", a), Protocol: "prpl-jabber", Key: keys[a%len(keys)]})
+		}
+		var buf bytes.Buffer
+		exportAccounts(accs, &buf)
+		chunks := []int{1, 2, 3, 5, 7, 64, 1000, 4095, 4096, 4097}
+		if thorough {
+			chunks = nil
+			for c := 1; c <= 4200; c++ {
+				chunks = append(chunks, c)
+			}
+		}
+		for _, c := range chunks {
+			back, err := ImportKeys(&c17ChunkReader{data: buf.Bytes(), chunk: c})
+			if !sameAccounts(back, accs, err) {
+				x.bad("keyfile-roundtrip:chunked-reader", "ImportKeys differs for a %d-byte file of 6 accounts when the reader returns at most %d bytes per call: %v", buf.Len(), c, err)
+			}
+			x.tick(true)
+		}
+		x.r.Extra["keyfile_reader_chunk_sizes"] = len(chunks)
+	}
+}
+
+// c17ChunkReader hands out the data in pieces of at most chunk bytes (a legitimate io.Reader: short reads)
+type c17ChunkReader struct {
+	data  []byte
+	chunk int
+}
+
+func (r *c17ChunkReader) Read(b []byte) (int, error) {
+	if len(r.data) == 0 {
+		return 0, io.EOF
+	}
+	n := r.chunk
+	if n > len(b) {
+		n = len(b)
+	}
+	if n > len(r.data) {
+		n = len(r.data)
+	}
+	copy(b, r.data[:n])
+	r.data = r.data[n:]
+	return n, nil
 }
 
 // bytes → values → bytes over the C13 byte-string domain, for every parser that accepts
@@ -622,7 +708,7 @@ func init() {
 }
 
 func verifC17Run(r *verifReport) {
-	r.Rule = "exhaustive small-domain enumeration, full products per structure: integers {0,1,7f,80,ff,100,2^64-1,2^64,p-1,p,2^1535}, byte strings of length {0,1,2,255,256,65535,65536} (with a leading zero byte), TLV types 0..9 × value lengths {0,1,2,255,256,65535}, TLV lists of length 0..3, texts up to 70000 bytes, SMP questions up to 70000 bytes; value→bytes→value equality, length prefixes equal content lengths, minimal MPIs; bytes→value→bytes on every input a parser accepts among all byte strings ≤ 6 over {00,01,7f,80,ff}; DSA keys derived to hit odd hex digit counts / short x / short y / zero bytes, wire form, fingerprint against an independent SHA-1 over the specification's layout, key file export→import with every account name ≤ 2 (thorough: 3) characters over a 12-character alphabet; non-trivial = non-empty / accepted"
+	r.Rule = "exhaustive small-domain enumeration, full products per structure: integers {0,1,7f,80,ff,100,2^64-1,2^64,p-1,p,2^1535}, byte strings of length {0,1,2,255,256,65535,65536} (with a leading zero byte), TLV types 0..9 × value lengths {0,1,2,255,256,65535}, TLV lists of length 0..3, texts up to 70000 bytes, SMP questions up to 70000 bytes; value→bytes→value equality, length prefixes equal content lengths, minimal MPIs; bytes→value→bytes on every input a parser accepts among all byte strings ≤ 6 over {00,01,7f,80,ff}; DSA keys derived to hit odd hex digit counts / short x / short y / zero bytes, wire form, fingerprint against an independent SHA-1 over the specification's layout, key file export→import with every account name ≤ 2 (thorough: 3) characters over a 12-character alphabet, 6-account (thorough: also 11 and 16) files with the first account name grown one character at a time over a whole entry length (every token slid over every 4096-byte reader boundary), and readers that return at most c bytes per call (10 sizes; thorough: every c ≤ 4200); non-trivial = non-empty / accepted"
 	r.Assumptions = []string{"DSA keys share one parameter set (p,q,g); only x and y vary", "the encrypted-signature field is compared modulo its length prefix (the sender keeps it with, the parser returns it without)"}
 	x := &c17Run{r: r}
 	x.primitives()
